@@ -370,8 +370,13 @@ func (broker *Broker) recover() (send []sts.Hashed, err error) {
 			var beg int64
 			var missing chunks
 			for _, part := range parts {
-				if beg == part.Beg {
-					beg = part.End
+				if part.Beg <= beg {
+					// Contiguous with, or overlapping, what is already
+					// accounted for (the receiver's record may overlap): only
+					// ever move forward
+					if part.End > beg {
+						beg = part.End
+					}
 					continue
 				}
 				missing = append(missing, &sts.ByteRange{
